@@ -11,23 +11,34 @@ def encOid : Oid → String
   | .ext n => toString n
   | .int _ => "~"
 
+def encTags (t : List (Py.Str × Option Py.Str)) : String :=
+  if t.isEmpty then "-" else "+".intercalate (t.map fun (k, v) => enc k ++ "=" ++ encOpt v)
+
+def decTags (f : String) : Option (List (Py.Str × Option Py.Str)) :=
+  if f = "-" then some [] else
+  (f.splitOn "+").mapM fun item =>
+    match item.splitOn "=" with
+    | [k, v] => do pure ((← dec k), (← decOpt v))
+    | _ => none
+
 def encMsg (m : Msg) : String :=
-  encOid m.oid ++ "/" ++ enc m.c.pfx ++ "/" ++ enc m.c.cmd ++ "/" ++ encList m.c.args
+  encOid m.oid ++ "/" ++ enc m.c.pfx ++ "/" ++ enc m.c.cmd ++ "/" ++ encList m.c.args ++ "/" ++ encTags m.c.tags
 
 def encMsgs (ms : List Msg) : String :=
   if ms.isEmpty then "-" else ";".intercalate (ms.map encMsg)
 
-def decContent3 (p c a : String) : Option Content := do
+def decContent3 (p c a t : String) : Option Content := do
   let p' ← dec p
   let c' ← dec c
   let a' ← decList a
-  pure ⟨p', c', a'⟩
+  let t' ← decTags t
+  pure ⟨p', c', a', t'⟩
 
 def decMsg (f : String) : Option Msg :=
   match f.splitOn "/" with
-  | [o, p, c, a] => do
+  | [o, p, c, a, t] => do
     let n ← o.toNat?
-    let ct ← decContent3 p c a
+    let ct ← decContent3 p c a t
     pure ⟨.ext n, ct⟩
   | _ => none
 
@@ -35,7 +46,7 @@ def decContents (f : String) : Option (List Content) :=
   if f = "-" then some [] else
   (f.splitOn ";").mapM fun item =>
     match item.splitOn "/" with
-    | [_, p, c, a] => decContent3 p c a
+    | [_, p, c, a, t] => decContent3 p c a t
     | _ => none
 
 /-- filter rule `kind:cmd:newcmd`: acts on messages whose command is `cmd` -/
